@@ -14,8 +14,9 @@ list elements are separated by commas with optional white space, empty elements 
                     part the decision must not look at (`Req.Props.C14Lines.decision_ignores_content_type`).
 
 Tie: lanes `e2e_h1/h2/h3`, `cross` (the header handed to driver lane `c14x` carries every observed
-field: the Content-Encoding lines as they arrived, Content-Type, the further fields); driver lane
-`c14codings` ↔ `golang.org/x/net/http/httpguts`-style token splitting done by the harness oracle.
+field: the Content-Encoding lines as they arrived, Content-Type, the further fields; driver lane
+`c14xj` = `Joined.process`); `codings` ↔ the standard-library splitting in lane `select` (driver lane
+`c14select … codings=`) with the oracle "whatever gets a reader is one coding as it stands".
 -/
 namespace Req.Compress.Lines
 open Req.Proto Req.Compress
